@@ -374,6 +374,9 @@ def leaves():
         ('FOREACH', (lit('f(1,2)'), lit('g')), 'v', S(LV('v')), lit(';'), None), ('FOREACH', (lit('1'), lit('2'), lit('3')), 'v', S(LV('v')), lit('*'), None),
         ('FOREACH', (lit('p'), lit('q'), lit('r')), 'v', S(LV('v'), LV('v')), None, None), ('FOREACH', (lit('p'), lit(''), lit('r')), 'v', S(LV('v')), lit(','), lit(' or ')),
         ('FOREACH', (lit('<'), lit('&')), 'v', S(LV('v')), lit(';'), None), ('FOREACH', (lit('p'), lit('q')), 'v', S(LV('v')), lit('>'), None),
+        # explicit final separators made of characters that HTML mode escapes (with a plain and an escaped separator)
+        ('FOREACH', (lit('p'), lit('q'), lit('r')), 'v', S(LV('v')), lit(';'), lit(' & ')), ('FOREACH', (lit('p'), lit('q')), 'v', S(LV('v')), lit('<'), lit('>')),
+        ('FOREACH', (lit('p'), lit('q'), lit('r')), 'v', S(LV('v')), lit(''), lit('&amp;')), ('FOR', n(1), n(3), None, None, 'n', S(LV()), lit('<'), lit(' & ')),
         ('FORMAT', None, (('lit', 'x'), ('ff', 'a', None, '03'), ('lit', '/'), ('ff', 's$', None, ''), ('ff', 'd', 1, ''))),
         ('FORMAT', num(0), (('ff', 'a', None, ''),)), ('FORMAT', num(2), (('lit', 'x{'), ('ff', 'a', None, '02X'), ('lit', '}'))),
         ('FORMAT', num(1), (('lit', 'Ab'), ('ff', 's$', None, ''))), ('FORMAT', None, (('lit', 'z'), ('ff', 'e$', 1, ''), ('ff', 'e$', 2, ''), ('ff', 'e$', 7, ''))),
